@@ -57,7 +57,8 @@ PARAMS = {
     "indelpost": ("bool", [True, False]),
 }
 ROUTES = ["profile_api", "genotype_api", "cli", "options", "options_explicit", "roundtrip", "dump",
-          "profile_api", "genotype_api", "cli", "options", "options_explicit", "roundtrip", "dump", "profile_cli"]
+          "profile_api", "genotype_api", "cli", "options", "options_explicit", "roundtrip", "dump", "profile_cli",
+          "exome"]
 MALFORMED = [("gap", "abc"), ("phase", "maybe"), ("min_quality", "x"), ("cn_max", "1.5x"), ("male", "2"),
              ("threshold", ""), ("indelpost", "no-way")]
 
@@ -84,10 +85,17 @@ def spell(rng, typ, v, strings_only):
     return str(v), str(v)
 
 
-def gen_world(seed, wi):
-    rng = random.Random(f"C18:{seed}:w:{wi}")
-    world = WL.one_gene_world(rng, small=True, gene_len=420, n_variants=4, n_major=2, lfusion=False,
-                              rfusion=False, ambiguous=False)
+def gen_world(seed, wi, exome=False):
+    rng = random.Random(f"C18:{seed}:w:{wi}:{int(exome)}")
+    if exome:
+        # a database the shipped "illumina" profile knows by name and region names: the technology
+        # profiles given by name (exome / wxs / wes) work on it
+        world = WL.one_gene_world(rng, small=True, gene_len=420, n_variants=4, n_major=2, lfusion=False,
+                                  rfusion=False, ambiguous=False, name="NUDT15", n_exons=3, pseudo=False,
+                                  deletion=True, cn_subset=False)
+    else:
+        world = WL.one_gene_world(rng, small=True, gene_len=420, n_variants=4, n_major=2, lfusion=False,
+                                  rfusion=False, ambiguous=False)
     g = world["genes"][0]
     smp = {"name": "s0", "genes": {g["name"]: [{"type": "normal", "allele": "1.001"},
                                                {"type": "normal", "allele": g["alleles"][-1]["name"]
@@ -99,8 +107,10 @@ def gen_world(seed, wi):
 def gen_plan(rng, tier, i, seed):
     cfg = TIERS[tier]
     route = ROUTES[i % len(ROUTES)]
-    strings_only = route in ("cli", "dump", "profile_cli")
+    strings_only = route in ("cli", "dump", "profile_cli", "exome")
     names = rng.sample(sorted(PARAMS), rng.randint(1, 5))
+    if route == "exome" and rng.random() < 0.6 and "min_coverage" not in names:
+        names.append("min_coverage")  # the technology profile has its own idea of this one
     settings = []
     for n in names:
         typ, vals = PARAMS[n]
@@ -126,8 +136,9 @@ def gen_plan(rng, tier, i, seed):
         extra = ["malformed", n, v]
     # history: an earlier version of the same profile file (other values) was loaded by the same process
     prior = route in ("roundtrip", "options", "options_explicit") and rng.random() < 0.5
-    return {"w": gen_world(seed, i % cfg["worlds"]), "route": route, "settings": settings, "options": options,
-            "prior": prior,
+    return {"w": gen_world(seed, i % cfg["worlds"], exome=(route == "exome")), "route": route,
+            "settings": settings, "options": options, "prior": prior,
+            "exome_name": rng.choice(["exome", "wxs", "wes"]), "exome_cli": rng.random() < 0.5,
             "extra": extra, "dashes": rng.random() < (0.6 if route in ("cli", "profile_cli", "dump") else 0.3),
             "write_hashseed": rng.choice([0, 1, 2, 3]), "read_hashseed": rng.choice([0, 1, 2, 3, 4, 5])}
 
@@ -148,7 +159,8 @@ def execute(plan, runner, rundir):
     wd, (worlddir, man) = _materialise(runner, w)
     common = {"worlddir": worlddir, "man": man, "rundir": rundir, "gene": w["world"]["genes"][0]["name"],
               "route": plan["route"], "settings": plan["settings"], "options": plan["options"],
-              "extra": plan["extra"], "dashes": plan["dashes"], "prior": plan.get("prior", False)}
+              "extra": plan["extra"], "dashes": plan["dashes"], "prior": plan.get("prior", False),
+              "exome_name": plan.get("exome_name"), "exome_cli": plan.get("exome_cli")}
     res = {}
     if plan["route"] in ("roundtrip", "dump", "options", "options_explicit", "profile_cli"):
         res["write"] = runner.segment(dict(common, kind="write", hashseed=plan["write_hashseed"]))
@@ -419,6 +431,14 @@ def run_segment(seg):
     # ---- read / run
     res = {"observed": {}, "rejected": None, "defaults": _profile_attrs(Profile("")), "forced": []}
     written = seg.get("written") or {}
+    if route == "exome":
+        # the shipped technology profile has an options section of its own: that is the baseline here
+        from aldy.common import script_path
+
+        shipped = yaml.safe_load(open(script_path("aldy.resources.profiles/illumina.yml"))).get("options") or {}
+        for k_, v_ in shipped.items():
+            if k_ in res["defaults"]:
+                res["defaults"][k_] = v_
     if route == "profile_cli":
         return res
     if written.get("rejected"):
@@ -468,6 +488,18 @@ def run_segment(seg):
                 else:
                     res["crash"] = rec["exc"]
             observe_stage()
+        elif route == "exome" and not seg.get("exome_cli"):
+            # technology profile by name: copy-number calling off, everything else as the user says
+            rec = O.run_genotype(db, bam, seg["exome_name"], None, cn_region=man["neutral"], params=params)
+            rec.pop("_raw", None)
+            if rec["exc"] and not SIM.stage_calls:
+                if rec["exc"].get("aldy"):
+                    res["rejected"] = rec["exc"]
+                else:
+                    res["crash"] = rec["exc"]
+            observe_stage()
+            if "min_coverage" not in params:
+                res["forced"] = ["min_coverage"]  # the technology profile's own value (5) unless the user says otherwise
         elif route == "genotype_api":
             rec = O.run_genotype(db, bam, refbam, None, cn_region=man["neutral"], params=params)
             rec.pop("_raw", None)
@@ -479,10 +511,14 @@ def run_segment(seg):
                     res["crash"] = rec["exc"]
             observe_stage()
         else:  # cli, dump: strings on the command line
-            src = bam if route == "cli" else os.path.join(rd, "dbg.tar.gz")
+            src = bam if route in ("cli", "exome") else os.path.join(rd, "dbg.tar.gz")
             argv = ["genotype", src, "--gene", db, "--solver", "cbc"]
             if route == "cli":
                 argv += ["--profile", refbam, "-n", man["neutral"]]
+            if route == "exome":
+                argv += ["--profile", seg["exome_name"], "-n", man["neutral"]]
+                if "min_coverage" not in params:
+                    res["forced"] = ["min_coverage"]
             for k, v in params.items():
                 kk = k.replace("_", "-") if seg.get("dashes") else k
                 argv += ["--param", f"{kk}={v}"]
